@@ -53,8 +53,21 @@ theorem C04_extracted_agrees :
     Extracted.Matrix.minCapacity = minCapacity ∧
     (∀ r c w, Extracted.Matrix.flatPos r c w = flatPos r c w) ∧
     (∀ r c, Extracted.Matrix.triPos r c = triPos r c) ∧
-    (∀ n, Extracted.Matrix.grow nextPow2 n = growCap n) :=
-  ⟨rfl, fun _ _ _ => rfl, fun _ _ => rfl, fun _ => rfl⟩
+    (∀ n, Extracted.Matrix.grow nextPow2 n = growCap n) := by
+  -- the generated definitions are in the extractor's canonical form (sorted sum of products, `max`/`min` for the
+  -- swap of the triangular layout), whatever the spelling in the source: the proof goes through that form once
+  refine ⟨rfl, fun r c w => ?_, fun r c => ?_, fun _ => rfl⟩
+  · simp only [Extracted.Matrix.flatPos, flatPos]; omega
+  · simp only [Extracted.Matrix.triPos, triPos]
+    by_cases h : r > c
+    · have h1 : max c r = r := by omega
+      have h2 : min c r = c := by omega
+      simp only [h, if_true, h1, h2, Nat.mul_add, Nat.mul_one]
+      omega
+    · have h1 : max c r = c := by omega
+      have h2 : min c r = r := by omega
+      simp only [h, if_false, h1, h2, Nat.mul_add, Nat.mul_one]
+      omega
 
 /-- `to_flat_square_matrix_position` stays below the allocated length `width²`. -/
 theorem C04_flat_lt {r c w : Nat} (hr : r < w) (hc : c < w) : flatPos r c w < w * w :=
